@@ -18,6 +18,7 @@ CONSTANTS
   OblHonest = TRUE
   AllowXA = FALSE
   OblXATruthful = TRUE
+  OblXAPhaseOrder = TRUE
 INVARIANTS TypeOK ATAtomicRollback TCCAtomic NoDirtyGlobalWrite RollbackPossible
 PROPERTIES ForeignSafe
 CHECK_DEADLOCK FALSE
